@@ -30,34 +30,35 @@ def programs():
     P = []
     ops = m2.wrapped_operands()
 
-    def add(form, op, stmt, expr=None, extra=()):
-        P.append(m2.Program(form, [(op.kind, op.ty)] + list(extra), stmt, expr))
+    def add(form, op, stmt, expr=None, extra=(), reached=None):
+        # [reached]: for a conversion context (a statement form) the plain type the value reaches when the statement is accepted
+        P.append(m2.Program(form, [(op.kind, op.ty)] + list(extra), stmt, expr, sink=reached))
     for op in ops:
         W = op.expr
         pt = m2.PLAIN_T.get(op.ty)
         # ---- conversion contexts (statement forms: accepted means the value reached a plain context) ----
         if pt:
-            add("init_copy", op, "%s x = %s; (void)x;" % (pt, W))
-            add("init_direct", op, "%s x(%s); (void)x;" % (pt, W))
-            add("init_brace", op, "%s x{%s}; (void)x;" % (pt, W))
-            add("static_cast", op, "auto x = static_cast<%s>(%s); (void)x;" % (pt, W))
-            add("c_cast", op, "auto x = (%s)(%s); (void)x;" % (pt, W))
-            add("assign", op, "%s x{}; x = %s; (void)x;" % (pt, W))
-            add("arg", op, "%s(%s);" % (m2.TAKE[op.ty], W))
-            add("return", op, "auto f = [&]() -> %s { return %s; }; (void)f;" % (pt, W))
-        add("to_bool", op, "bool x = %s; (void)x;" % W)
-        add("to_int", op, "int x = %s; (void)x;" % W)
-        add("to_long", op, "long x = %s; (void)x;" % W)
-        add("to_double", op, "double x = %s; (void)x;" % W)
-        add("to_voidp", op, "const void* x = %s; (void)x;" % W)
-        add("explicit_bool", op, "auto x = static_cast<bool>(%s); (void)x;" % W)
-        add("if", op, "if (%s) {}" % W)
-        add("while", op, "while (%s) { break; }" % W)
-        add("for", op, "for (; %s;) { break; }" % W)
-        add("ternary", op, "int x = %s ? 1 : 2; (void)x;" % W)
-        add("switch", op, "switch (%s) { default: break; }" % W)
-        add("subscript_plain", op, "int x = e.p_arr[%s]; (void)x;" % W)
-        add("ptrarith_plain", op, "auto x = e.p_pint + %s; (void)x;" % W)
+            add("init_copy", op, "%s x = %s; (void)x;" % (pt, W), reached=pt)
+            add("init_direct", op, "%s x(%s); (void)x;" % (pt, W), reached=pt)
+            add("init_brace", op, "%s x{%s}; (void)x;" % (pt, W), reached=pt)
+            add("static_cast", op, "auto x = static_cast<%s>(%s); (void)x;" % (pt, W), reached=pt)
+            add("c_cast", op, "auto x = (%s)(%s); (void)x;" % (pt, W), reached=pt)
+            add("assign", op, "%s x{}; x = %s; (void)x;" % (pt, W), reached=pt)
+            add("arg", op, "%s(%s);" % (m2.TAKE[op.ty], W), reached=pt)
+            add("return", op, "auto f = [&]() -> %s { return %s; }; (void)f;" % (pt, W), reached=pt)
+        add("to_bool", op, "bool x = %s; (void)x;" % W, reached="bool")
+        add("to_int", op, "int x = %s; (void)x;" % W, reached="int")
+        add("to_long", op, "long x = %s; (void)x;" % W, reached="long")
+        add("to_double", op, "double x = %s; (void)x;" % W, reached="double")
+        add("to_voidp", op, "const void* x = %s; (void)x;" % W, reached="const void *")
+        add("explicit_bool", op, "auto x = static_cast<bool>(%s); (void)x;" % W, reached="bool")
+        add("if", op, "if (%s) {}" % W, reached="bool")
+        add("while", op, "while (%s) { break; }" % W, reached="bool")
+        add("for", op, "for (; %s;) { break; }" % W, reached="bool")
+        add("ternary", op, "int x = %s ? 1 : 2; (void)x;" % W, reached="bool")
+        add("switch", op, "switch (%s) { default: break; }" % W, reached="int")
+        add("subscript_plain", op, "int x = e.p_arr[%s]; (void)x;" % W, reached="long")
+        add("ptrarith_plain", op, "auto x = e.p_pint + %s; (void)x;" % W, reached="long")
         # ---- expression forms: the type of the result is classified ----
         def val(form, expr, extra=()):
             add(form, op, "(void)(%s);" % expr, expr, extra)
